@@ -1,3 +1,421 @@
-/- Model for C17: not written yet -/
+/-
+Model for C17 — ACME: certificates requested exactly when needed, queue tracks Ingress changes.
+Core-only.
+
+(a) `pkg/acme/signer.go`: `Notify` / `verify` / `match` as control flow over
+    * the secret state (`GetTLSSecretContent` error | certificate with `NotAfter` and DNS SANs),
+    * `time.Now()` and the configured `expiring` window (Int nanoseconds),
+    * the declared domains carried by the queue item (`name,chain,d1,d2,...`),
+    * the result of `Client.Sign` (crt? key? err?) and of `SetTLSSecretContent` (err?).
+    `match` uses `x509.Certificate.VerifyHostname`; for valid lower-case host names that is
+    `coversOne`: exact label-wise equality, or a SAN whose *whole leftmost label* is `*`
+    covering exactly one extra label; a declared name that itself starts with `*` is only
+    covered by the identical SAN (Go treats it as an invalid candidate => exact match).
+
+(b) `pkg/haproxy/types/global.go` `AcmeStorages` (items / itemsAdd / itemsDel with the pointer
+    sharing between `items` and `itemsAdd`), `config.Clear()` (a brand new, empty storages
+    object), `config.Commit()`, `instance.AcmeUpdate()` on leader / non-leader, with and
+    without an ACME account.
+
+(c) the part of `pkg/converters/ingress/ingress.go` that feeds (b): per partial sync the
+    tracker closure (`trackAddedIngress` + `QueryLinks(..., true)`) decides which storages are
+    `RemoveAll`ed and which ingresses are re-synced; `syncIngress` acquires a storage per TLS
+    block of an ingress that has `cert-signer: acme`.
+-/
 namespace HapVerif.C17
+
+/-! ## (a) signer -/
+
+/-- a DNS name as its list of labels (`"*.dev.local"` = `["*","dev","local"]`) -/
+abbrev Name := List String
+
+def isWild (n : Name) : Bool := n.head? == some "*"
+
+/-- `VerifyHostname`: does one SAN cover one candidate host name -/
+def coversOne (san d : Name) : Bool :=
+  if d == [""] then false                       -- empty candidate never matches
+  else if isWild d then san == d                -- invalid candidate: exact comparison only
+  else if isWild san then
+    !san.tail.isEmpty && !d.isEmpty && d.tail == san.tail   -- `*` = exactly one label
+  else san == d
+
+def covered (sans : List Name) (d : Name) : Bool := sans.any (coversOne · d)
+
+/-- signer.go `match` -/
+def matchAll (domains : List Name) (sans : List Name) : Bool := domains.all (covered sans)
+
+inductive Secret where
+  | missing                                       -- GetTLSSecretContent returned an error
+  | cert (notAfter : Int) (sans : List Name)
+deriving Repr, DecidableEq
+
+structure SignRes where
+  crt : Bool
+  key : Bool
+  err : Bool
+deriving Repr, DecidableEq
+
+structure VIn where
+  acct     : Bool            -- signer has a client (HasAccount)
+  secret   : Secret
+  now      : Int
+  window   : Int             -- `expiring`
+  declared : List Name       -- domain set of the storage the item was built from
+  sign     : SignRes
+  setErr   : Bool            -- SetTLSSecretContent fails
+deriving Repr
+
+inductive Reason where | missing | expiring | outdated
+deriving Repr, DecidableEq
+
+structure VOut where
+  got     : Bool                       -- GetTLSSecretContent called
+  signed  : Option (List Name)         -- Client.Sign called with these domains
+  written : Bool                       -- SetTLSSecretContent called
+  err     : Bool                       -- Notify returned an error
+  metric  : Option (Reason × Bool)     -- which counter, success flag
+deriving Repr, DecidableEq
+
+/-- `buildAcmeStorages` joins the domains with "," and `Notify` splits the item again:
+an empty domain set comes back as the single empty name. -/
+def itemDomains (declared : List Name) : List Name :=
+  if declared.isEmpty then [[""]] else declared
+
+def reasonOf (i : VIn) (ds : List Name) : Option Reason :=
+  match i.secret with
+  | .missing => some .missing
+  | .cert na sans =>
+    if na < i.now + i.window then some .expiring          -- NotAfter.Before(now+expiring): strict
+    else if !(matchAll ds sans) then some .outdated
+    else none
+
+/-- `signer.Notify` -/
+def notify (i : VIn) : VOut :=
+  if !i.acct then { got := false, signed := none, written := false, err := true, metric := none } else
+  let ds := itemDomains i.declared
+  match reasonOf i ds with
+  | none => { got := true, signed := none, written := false, err := false, metric := none }
+  | some r =>
+    if i.sign.crt && i.sign.key then
+      { got := true, signed := some ds, written := true, err := i.setErr, metric := some (r, !i.setErr) }
+    else
+      { got := true, signed := some ds, written := false, err := i.sign.err, metric := some (r, !i.sign.err) }
+
+/-! ### Spec (a) -/
+
+/-- what the property calls "needed" -/
+def needed (i : VIn) : Bool :=
+  match i.secret with
+  | .missing => true
+  | .cert na sans => na < i.now + i.window || !(i.declared.all (covered sans))
+
+def oracleVerify (i : VIn) (o : VOut) : Option String :=
+  if !i.acct then
+    (if o.signed.isSome || o.written then some "no-account-but-requested" else none)
+  else if o.signed.isSome && !needed i then
+    some (if i.declared.isEmpty then "empty-domain-set-requested" else "valid-certificate-re-requested")
+  else if o.signed.isNone && needed i then some "needed-certificate-not-requested"
+  else if o.written && !(o.signed.isSome && i.sign.crt && i.sign.key) then
+    some "secret-written-without-crt-and-key"
+  else if (match o.signed with
+      | some ds => !i.declared.isEmpty && ds != i.declared
+      | none => false) then some "requested-wrong-domains"
+  else none
+
+/-! ## (b) AcmeStorages / AcmeUpdate -/
+
+/-- `AcmeCerts`: preferred chain + the set of domains (sorted, no duplicates: `reflect.DeepEqual`
+on the Go map is set equality) -/
+structure Cert where
+  chain : String
+  doms  : List String
+deriving Repr, DecidableEq
+
+def addDom (l : List String) (d : String) : List String :=
+  match l with
+  | [] => [d]
+  | x :: t => if d = x then l else if d < x then d :: l else x :: addDom t d
+
+def addDoms (l : List String) (ds : List String) : List String := ds.foldl addDom l
+
+/-- `AssignPreferredChain` (called only with a non-empty chain); the error case keeps the old one -/
+def assignChain (cur chain : String) : String :=
+  if chain = "" then cur else if cur ≠ "" ∧ cur ≠ chain then cur else chain
+
+abbrev SMap := List (String × Cert)
+
+def find (m : SMap) (n : String) : Option Cert :=
+  match m with
+  | [] => none
+  | (k, v) :: t => if k = n then some v else find t n
+
+def erase (m : SMap) (n : String) : SMap := m.filter (fun e => e.1 ≠ n)
+def insert (m : SMap) (n : String) (c : Cert) : SMap := (n, c) :: erase m n
+
+structure Storages where
+  items : SMap := []
+  add   : SMap := []
+  del   : SMap := []
+deriving Repr, DecidableEq
+
+/-- queue facade calls -/
+inductive QOp where
+  | add (n : String) (c : Cert)
+  | remove (n : String) (c : Cert)
+deriving Repr, DecidableEq
+
+/-- `Acquire(n)` + `AddDomains(doms)` + (`chain ≠ ""` → `AssignPreferredChain(chain)`).
+The object in `itemsAdd` is the one in `items` (same pointer), so it sees the mutation. -/
+def acquire (s : Storages) (n chain : String) (doms : List String) : Storages :=
+  match find s.items n with
+  | none =>
+    let c : Cert := { chain := assignChain "" chain, doms := addDoms [] doms }
+    { s with items := insert s.items n c, add := insert s.add n c }
+  | some cur =>
+    let c : Cert := { chain := assignChain cur.chain chain, doms := addDoms cur.doms doms }
+    { s with items := insert s.items n c,
+             add := if (find s.add n).isSome then insert s.add n c else s.add }
+
+def removeOne (s : Storages) (n : String) : Storages :=
+  match find s.items n with
+  | some c => { s with items := erase s.items n, del := insert s.del n c }
+  | none => s
+
+def removeAll (s : Storages) (ns : List String) : Storages := ns.foldl removeOne s
+
+/-- `shrink`: a name whose removed and (re)added objects are deep-equal is neither -/
+def shrink (s : Storages) : Storages :=
+  let same (n : String) : Bool := (find s.add n).isSome && find s.add n == find s.del n
+  { s with add := s.add.filter (fun e => !same e.1), del := s.del.filter (fun e => !same e.1) }
+
+def commit (s : Storages) : Storages := { s with add := [], del := [] }
+
+/-- `config.Clear()`: `createConfig` makes a new `AcmeData{}`; the old storages object is dropped -/
+def clear (_ : Storages) : Storages := {}
+
+/-- `instance.AcmeUpdate()`; `acct` = `acmeEnsureConfig` (signer.HasAccount) -/
+def acmeUpdate (leader acct : Bool) (s : Storages) : Storages × List QOp :=
+  if leader then
+    if !acct then (s, [])
+    else
+      let s' := shrink s
+      (s', s'.add.map (fun e => QOp.add e.1 e.2) ++ s'.del.map (fun e => QOp.remove e.1 e.2))
+  else (shrink s, [])          -- `storages.Updated()` shrinks, nothing is enqueued
+
+inductive Op where
+  | clear
+  | removeAll (ns : List String)
+  | acq (n chain : String) (doms : List String)
+  | update (leader acct : Bool)
+  | commit
+deriving Repr, DecidableEq
+
+def step (s : Storages) : Op → Storages × Option (List QOp)
+  | .clear => (clear s, none)
+  | .removeAll ns => (removeAll s ns, none)
+  | .acq n ch ds => (acquire s n ch ds, none)
+  | .update l a => let r := acmeUpdate l a s; (r.1, some r.2)
+  | .commit => (commit s, none)
+
+/-- run raw operations; one output per `update` -/
+def run (s : Storages) : List Op → Storages × List (List QOp)
+  | [] => (s, [])
+  | o :: os =>
+    let r := step s o
+    let rest := run r.1 os
+    (rest.1, match r.2 with | some q => q :: rest.2 | none => rest.2)
+
+/-! ### reconciliation cycles (what `ReconcileIngress` does around the storages) -/
+
+structure Acq where
+  name  : String
+  chain : String
+  doms  : List String
+deriving Repr, DecidableEq
+
+structure Cycle where
+  full   : Bool            -- full sync: `Clear()`; partial: `RemoveAll(dirty)`
+  leader : Bool
+  acct   : Bool
+  dirty  : List String
+  acqs   : List Acq
+deriving Repr, DecidableEq
+
+def applyAcqs (s : Storages) (as : List Acq) : Storages :=
+  as.foldl (fun s a => acquire s a.name a.chain a.doms) s
+
+/-- state just before `AcmeUpdate` -/
+def preUpdate (s : Storages) (c : Cycle) : Storages :=
+  applyAcqs (if c.full then clear s else removeAll s c.dirty) c.acqs
+
+/-- one cycle: sync, `AcmeUpdate`, `Commit` (deferred in `HAProxyUpdate`) -/
+def cycle (s : Storages) (c : Cycle) : Storages × List QOp :=
+  let r := acmeUpdate c.leader c.acct (preUpdate s c)
+  (commit r.1, r.2)
+
+def cycleOps (c : Cycle) : List Op :=
+  (if c.full then [Op.clear] else [Op.removeAll c.dirty]) ++
+  c.acqs.map (fun a => Op.acq a.name a.chain a.doms) ++ [Op.update c.leader c.acct, Op.commit]
+
+def runCycles (s : Storages) : List Cycle → Storages × List (List QOp)
+  | [] => (s, [])
+  | c :: cs =>
+    let r := cycle s c
+    let rest := runCycles r.1 cs
+    (rest.1, r.2 :: rest.2)
+
+/-- converter contract for a partial cycle: a storage that is acquired was either removed
+first (it is rebuilt from scratch) or did not exist — never mutated in place -/
+def Cycle.wf (s : Storages) (c : Cycle) : Prop :=
+  c.full = false → ∀ a ∈ c.acqs, a.name ∈ c.dirty ∨ find s.items a.name = none
+
+instance (s : Storages) (c : Cycle) : Decidable (c.wf s) := by unfold Cycle.wf; infer_instance
+
+/-! ### Spec (b): what the queue must see in one cycle, given the storages before and after -/
+
+def keys (m : SMap) : List String := m.map (·.1)
+
+/-- entries of `a` that `b` does not have with the same value -/
+def diff (a b : SMap) : SMap := a.filter (fun e => find b e.1 != some e.2)
+
+def sameSet (a b : SMap) : Bool := a.all (fun e => b.contains e) && b.all (fun e => a.contains e)
+
+def splitOps (ops : List QOp) : SMap × SMap :=
+  (ops.filterMap (fun | .add n c => some (n, c) | _ => none),
+   ops.filterMap (fun | .remove n c => some (n, c) | _ => none))
+
+/-- `prev`/`new`: storages (name ↦ chain, domains) before and after the cycle -/
+def oracleCycle (full leader acct : Bool) (prev new : SMap) (ops : List QOp) : Option String :=
+  let (adds, rems) := splitOps ops
+  if !(leader && acct) then (if ops.isEmpty then none else some "non-leader-enqueued") else
+  if !((diff new prev).all adds.contains) then some "changed-storage-not-enqueued" else
+  if !(adds.all new.contains) then some "stale-item-enqueued" else
+  if !full && adds.any prev.contains then some "unchanged-storage-re-enqueued" else
+  if rems.any new.contains then some "live-item-removed" else
+  if !(rems.all prev.contains) then some "unknown-item-removed" else
+  if !((diff prev new).all rems.contains) then
+    some (if full then "full-sync-vanished-storage-not-removed" else "vanished-storage-not-removed")
+  else none
+
+/-! ## (c) ingress converter: which storages are rebuilt -/
+
+structure Tls where
+  secret : String
+  hosts  : List String
+deriving Repr, DecidableEq
+
+structure Ing where
+  name  : String
+  rule  : String        -- host of the single rule
+  acme  : Bool          -- annotation cert-signer: acme
+  chain : String        -- annotation acme-preferred-chain
+  tls   : List Tls
+deriving Repr, DecidableEq
+
+abbrev World := List Ing      -- sorted by name, names unique
+
+inductive Node where
+  | host (h : String) | sec (s : String) | acme (s : String)
+deriving Repr, DecidableEq
+
+/-- tracker links of one ingress after `syncIngress` -/
+def ingNodes (i : Ing) : List Node :=
+  Node.host i.rule ::
+  i.tls.flatMap (fun t =>
+    t.hosts.map Node.host ++ (if t.hosts.isEmpty || t.secret = "" then [] else [Node.sec t.secret]) ++
+    (if i.acme && t.secret ≠ "" then [Node.acme t.secret] else []))
+
+def ingAcqs (i : Ing) : List Acq :=
+  if i.acme then
+    i.tls.filterMap (fun t => if t.secret ≠ "" then some ⟨t.secret, i.chain, t.hosts⟩ else none)
+  else []
+
+abbrev Tracker := List (String × List Node)
+
+def adj (T : Tracker) (k : String) : List Node :=
+  (T.filter (fun e => e.1 = k)).flatMap (·.2)
+
+/-- ingresses reachable from `ings` through shared nodes (`QueryLinks`) -/
+def closure (T : Tracker) : Nat → List String → List String
+  | 0, ings => ings
+  | f + 1, ings =>
+    let nodes := ings.flatMap (adj T)
+    let more := (T.filter (fun e => !ings.contains e.1 && e.2.any nodes.contains)).map (·.1)
+    if more.isEmpty then ings else closure T f (ings ++ more.eraseDups)
+
+def findIng (w : World) (n : String) : Option Ing := w.find? (·.name = n)
+
+def insertSorted (l : List String) (x : String) : List String :=
+  match l with
+  | [] => [x]
+  | y :: t => if x = y then l else if x < y then x :: l else y :: insertSorted t x
+
+def sortNames (l : List String) : List String := l.foldl insertSorted []
+
+structure ConvSt where
+  world   : World := []
+  tracker : Tracker := []
+  st      : Storages := {}
+deriving Repr
+
+structure ConvCycle where
+  full   : Bool
+  leader : Bool
+  acct   : Bool
+  world  : World
+deriving Repr
+
+/-- names added / updated / deleted between two worlds -/
+def changedNames (old new : World) : List String × List String × List String :=
+  (new.filter (fun i => (findIng old i.name).isNone) |>.map (·.name),
+   new.filter (fun i => match findIng old i.name with | some o => o != i | none => false) |>.map (·.name),
+   old.filter (fun i => (findIng new i.name).isNone) |>.map (·.name))
+
+/-- the storages-level cycle the converter produces -/
+def convPlan (s : ConvSt) (c : ConvCycle) : Cycle × Tracker :=
+  if c.full then
+    ({ full := true, leader := c.leader, acct := c.acct, dirty := [],
+       acqs := c.world.flatMap ingAcqs },
+     c.world.map (fun i => (i.name, ingNodes i)))
+  else
+    let (added, updated, deleted) := changedNames s.world c.world
+    -- trackAddedIngress: rule hosts of added and updated ingresses
+    let pre : Tracker := (added ++ updated).filterMap (fun n =>
+      (findIng c.world n).map (fun i => (n, [Node.host i.rule])))
+    let T := s.tracker ++ pre
+    let seeds := added ++ updated ++ deleted
+    let dirtyIngs := closure T (T.length + 1) seeds
+    let dirtyStor := (dirtyIngs.flatMap (adj T)).filterMap (fun | .acme x => some x | _ => none)
+    let resync := sortNames ((dirtyIngs.filter (fun n => !deleted.contains n)) ++ added)
+    let ings := resync.filterMap (findIng c.world)
+    let T' := (s.tracker.filter (fun e => !dirtyIngs.contains e.1)) ++
+              ings.map (fun i => (i.name, ingNodes i))
+    ({ full := false, leader := c.leader, acct := c.acct, dirty := dirtyStor.eraseDups,
+       acqs := ings.flatMap ingAcqs }, T')
+
+def convCycle (s : ConvSt) (c : ConvCycle) : ConvSt × List QOp :=
+  let (cy, T') := convPlan s c
+  let r := cycle s.st cy
+  ({ world := c.world, tracker := T', st := r.1 }, r.2)
+
+def runConv (s : ConvSt) : List ConvCycle → ConvSt × List (List QOp)
+  | [] => (s, [])
+  | c :: cs =>
+    let r := convCycle s c
+    let rest := runConv r.1 cs
+    (rest.1, r.2 :: rest.2)
+
+/-- Spec: the storages an ingress world declares (independent of any tracking) -/
+def declared (w : World) : SMap :=
+  (applyAcqs {} (w.flatMap ingAcqs)).items
+
+/-- per cycle Spec verdict on observed queue operations -/
+def oracleConv : World → List ConvCycle → List (List QOp) → Option String
+  | _, [], _ => none
+  | _, _ :: _, [] => some "missing-output"
+  | w, c :: cs, o :: os =>
+    match oracleCycle c.full c.leader c.acct (declared w) (declared c.world) o with
+    | some e => some e
+    | none => oracleConv c.world cs os
+
 end HapVerif.C17
